@@ -294,18 +294,21 @@ class Run(Shard):
             "wall_s": round(wall, 2),
             "violations": len(unknown),
         }
-        os.makedirs(os.path.join(HERE, "evidence"), exist_ok=True)
-        tmp = os.path.join(HERE, "evidence", f".{self.prop}.json.tmp")
+        # tooling that runs checks against patched scratch trees (seeded changes, mutants) sets
+        # VERIF_OUT so that the committed evidence of the unchanged tree is not overwritten
+        OUT = os.environ.get("VERIF_OUT") or HERE
+        os.makedirs(os.path.join(OUT, "evidence"), exist_ok=True)
+        tmp = os.path.join(OUT, "evidence", f".{self.prop}.json.tmp")
         with open(tmp, "w") as f:
             json.dump(ev, f, indent=1, default=jsonable)
             f.write("\n")
-        os.replace(tmp, os.path.join(HERE, "evidence", f"{self.prop}.json"))
+        os.replace(tmp, os.path.join(OUT, "evidence", f"{self.prop}.json"))
 
         for key, vs, f in known:
             print(f"KNOWN-FINDING: property={self.prop} {f['what']} [key={key}]")
         code = 0
         if unknown:
-            os.makedirs(os.path.join(HERE, "replays"), exist_ok=True)
+            os.makedirs(os.path.join(OUT, "replays"), exist_ok=True)
             for key, vs, _ in unknown:
                 rp = {
                     "property": self.prop,
@@ -316,7 +319,7 @@ class Run(Shard):
                     "witnesses": [v["witness"] for v in vs],
                 }
                 name = f"{self.prop}-{short([key])}.json"
-                path = os.path.join(HERE, "replays", name)
+                path = os.path.join(OUT, "replays", name)
                 with open(path, "w") as f:
                     json.dump(rp, f, indent=1, default=jsonable)
                 print(f"  violated: {key}: {vs[0]['what']}")
